@@ -10,6 +10,7 @@ CONSTANTS
   SplitWrite = FALSE
   NoMaxCheck = FALSE
   NoMinCheck = TRUE
+  ResumeFresh = FALSE
   NoReadFull = FALSE
   WithHist = FALSE
   Export = FALSE
